@@ -83,7 +83,7 @@ theorem append_range_refines (cfg : Cfg) (c : Nat) (vs : List α) (w w' : World 
     (hp : Pre cfg w c) (hpol : StrongPolicy cfg) (hx : Holds w c xs)
     (hr : appendRangeFwd cfg c true (vs.map Src.ext) w = .ok r w') :
     Holds w' c (L0.append xs (vs.map Val.val)) ∧ r = xs.length := by
-  have h := sat_of_ok (appendRangeFwd_sat cfg c true _ w hp.vec hp.led hp.nmax (argsOK_ext cfg w c vs) (fun _ => hpol)) hr
+  have h := sat_of_ok (appendRangeFwd_sat cfg c true _ w hp.vec hp.led hp.nmax ((argsOK_ext cfg w c vs).srcs hp.vec hp.led) (fun _ => hpol)) hr
   have hm : (vs.map Src.ext).map (srcVal w) = vs.map Val.val := by simp [srcVal, Function.comp_def]
   rw [hm] at h
   exact ⟨h.2.holds xs hx, by rw [h.1, hx.1]⟩
@@ -155,7 +155,7 @@ theorem resize_inv (cfg : Cfg) (c n : Nat) (s : Src α) (w : World α) (hp : Pre
 
 theorem append_range_inv (cfg : Cfg) (c : Nat) (strong : Bool) (vs : List α) (w : World α) (hp : Pre cfg w c) (hpol : StrongPolicy cfg) :
     (appendRangeFwd cfg c strong (vs.map Src.ext) w).sat (fun _ w' => VecOK cfg w' c) (fun _ w' => VecOK cfg w' c) :=
-  Res.sat_mono (appendRangeFwd_sat cfg c strong _ w hp.vec hp.led hp.nmax (argsOK_ext cfg w c vs) (fun _ => hpol))
+  Res.sat_mono (appendRangeFwd_sat cfg c strong _ w hp.vec hp.led hp.nmax ((argsOK_ext cfg w c vs).srcs hp.vec hp.led) (fun _ => hpol))
     (fun _ _ h => h.2.basic.vec) (fun _ _ h => h.2.1.vec)
 end C02
 
@@ -252,7 +252,7 @@ theorem resize_strong (cfg : Cfg) (c n : Nat) (s : Src α) (w w' : World α) (e 
 
 theorem append_range_strong (cfg : Cfg) (c : Nat) (vs : List α) (w w' : World α) (e : Exc) (hp : Pre cfg w c) (hpol : StrongPolicy cfg)
     (hr : appendRangeFwd cfg c true (vs.map Src.ext) w = .thrown e w') : Strong w w' :=
-  (sat_of_thrown (appendRangeFwd_sat cfg c true _ w hp.vec hp.led hp.nmax (argsOK_ext cfg w c vs) (fun _ => hpol)) hr).1 rfl
+  (sat_of_thrown (appendRangeFwd_sat cfg c true _ w hp.vec hp.led hp.nmax ((argsOK_ext cfg w c vs).srcs hp.vec hp.led) (fun _ => hpol)) hr).1 rfl
 
 /-- what `Strong` means for the container: same values (none moved-from), same size / capacity / data pointer, nothing leaked -/
 theorem strong_observably_unchanged (cfg : Cfg) (c : Nat) (w w' : World α) (xs : List (Val α)) (hp : Pre cfg w c)
@@ -326,7 +326,7 @@ theorem append_range_in_place (cfg : Cfg) (c : Nat) (vs : List α) (w w' : World
     (hfit : (w.hdr c).size + vs.length ≤ (w.hdr c).cap) (hr : appendRangeFwd cfg c true (vs.map Src.ext) w = .ok r w') :
     (w'.hdr c).data = (w.hdr c).data ∧ (w'.hdr c).cap = (w.hdr c).cap ∧ w'.next = w.next ∧ w'.live = w.live ∧
     ∀ i, i < (w.hdr c).size → (w'.mem (w.hdr c).data)[i]? = (w.mem (w.hdr c).data)[i]? := by
-  have h := (sat_of_ok (appendRangeFwd_sat cfg c true _ w hp.vec hp.led hp.nmax (argsOK_ext cfg w c vs) (fun _ => hpol)) hr).2
+  have h := (sat_of_ok (appendRangeFwd_sat cfg c true _ w hp.vec hp.led hp.nmax ((argsOK_ext cfg w c vs).srcs hp.vec hp.led) (fun _ => hpol)) hr).2
   exact h.inplace (by simpa using hfit)
 end C10
 
